@@ -96,6 +96,52 @@ theorem git_refuses_imp_gix_refuses_hfs (windows symlink : Bool) (c : Bytes) (h0
     · rw [hm] at h; cases h
     · rw [hm'] at h; cases h
 
+/-- The callers that choose the mode. `gix_index::State::from_tree` validates a leaf as a symlink iff
+the KIND of its tree-entry mode is a link (`mode & 0o170000 == 0o120000`, so also the non-canonical
+120777 / 120644) — which is git's `S_ISLNK`: whatever git refuses for (S_ISLNK(mode), name) keeps the
+index from being built, with the same two exceptions. -/
+theorem from_tree_refuses_partial (o : Opts) (mode : Nat) (c : Bytes) (h0 : c.contains 0 = false)
+    (hg : gitVerifyPath o.ntfs o.hfs (modeIsLink mode) c = false) :
+    (fromTreeEntry extractedTables o mode c).isSome = true
+      ∨ (o.ntfs = true ∧ o.windows = false ∧ c.contains 92 = true)
+      ∨ (o.hfs = true ∧
+          ((isHfsDotgit c = true ∧ hfsEndsMalformed c needleGit = true)
+            ∨ (modeIsLink mode = true ∧ isHfsDotgitmodules c = true ∧ hfsEndsMalformed c needleGitmodules = true))) := by
+  rcases git_refuses_imp_gix_refuses_partial o (modeIsLink mode) c h0 hg with h | h | h
+  · left
+    unfold fromTreeEntry
+    cases h1 : component extractedTables o false c with
+    | some e => rfl
+    | none =>
+      cases hl : modeIsLink mode
+      · rw [hl, h1] at h; cases h
+      · rw [hl] at h
+        have ht : modeIsTree mode = false := by
+          unfold modeIsLink at hl
+          unfold modeIsTree
+          have : mode &&& 0o170000 = 0o120000 := by simpa using hl
+          rw [this]; decide
+        simp only [ht, Bool.not_false, Bool.true_and, if_true]
+        exact h
+  · exact Or.inr (Or.inl h)
+  · exact Or.inr (Or.inr h)
+
+/-- The checkout stack (`StackDelegate::push`) validates the component it pushes with the entry's mode. -/
+theorem stack_push_refuses_partial (o : Opts) (symlink : Bool) (c : Bytes) (h0 : c.contains 0 = false)
+    (hg : gitVerifyPath o.ntfs o.hfs symlink c = false) :
+    (stackPush extractedTables o symlink c).isSome = true
+      ∨ (o.ntfs = true ∧ o.windows = false ∧ c.contains 92 = true)
+      ∨ (o.hfs = true ∧
+          ((isHfsDotgit c = true ∧ hfsEndsMalformed c needleGit = true)
+            ∨ (symlink = true ∧ isHfsDotgitmodules c = true ∧ hfsEndsMalformed c needleGitmodules = true))) :=
+  git_refuses_imp_gix_refuses_partial o symlink c h0 hg
+
+-- a `.gitmodules` link with the non-canonical mode 120777 keeps the index from being built; as a blob it is fine
+example : fromTreeEntry extractedTables ⟨false, false, false⟩ 0o120777 [46, 103, 105, 116, 109, 111, 100, 117, 108, 101, 115]
+      = some .symlinkedGitModules
+    ∧ fromTreeEntry extractedTables ⟨false, false, false⟩ 0o100664 [46, 103, 105, 116, 109, 111, 100, 117, 108, 101, 115] = none := by
+  decide +kernel
+
 /-- Windows device names: whatever `is_win_device` (whose name table is extracted and checked by
 `extracted_devices_ok`) recognises is refused when protect_windows and protect_ntfs are on. -/
 theorem device_names_refused (t : Tables) (hfs symlink : Bool) (c : Bytes) (hd : isWinDevice t c = true) :
